@@ -31,6 +31,25 @@ def build():
         raises={'ConfigurationError': dict(only_if='not (name in spec) and not allow_unrecognized')},
         loops={0: dict(fingerprint='for c in configs', index='i', invariant=['forall(0, i, lambda j: not (name in configs[j]))'])})
 
+    # ---- the compiler's own reading of the configuration: compiler._get_config_val asks with the transaction's session, database and system maps IN THAT ORDER
+    #      (most specific first), so what a statement is compiled under is the effective value of the property statement
+    COMPPY = 'edb/server/compiler/compiler.py'
+    w.refclass('XTx', {}); w.refclass('XSt', {}); w.refclass('XCs', {'config_spec': 'Map[str,Setting]'}); w.refclass('XCtx', {'state': 'XSt', 'compiler_state': 'XCs'})
+    w.ufunc('SESS', ['XTx'], 'Map[str,SV]'); w.ufunc('DBC', ['XTx'], 'Map[str,SV]'); w.ufunc('SYSC', ['XTx'], 'Map[str,SV]'); w.ufunc('CURTX', ['XSt'], 'XTx')
+    w.ext_methods['XSt.current_tx'] = dict(params={}, returns='XTx', returns_expr='CURTX(self)')
+    w.ext_methods['XTx.get_session_config'] = dict(params={}, returns='Map[str,SV]', returns_expr='SESS(self)')
+    w.ext_methods['XTx.get_database_config'] = dict(params={}, returns='Map[str,SV]', returns_expr='DBC(self)')
+    w.ext_methods['XTx.get_system_config'] = dict(params={}, returns='Map[str,SV]', returns_expr='SYSC(self)')
+    TXE = 'CURTX(ctx.state)'; SPECE = 'ctx.compiler_state.config_spec'
+    IN = lambda m: 'name in %s(%s)' % (m, TXE)
+    VAL = lambda m: '%s(%s)[name].value' % (m, TXE)
+    w.contract(COMPPY, '_get_config_val', params={'ctx': 'XCtx', 'name': 'str'}, returns='Opt[Obj]',
+        ensures=['implies(name in %s and %s, some(result) == %s)' % (SPECE, IN('SESS'), VAL('SESS')),
+                 'implies(name in %s and not %s and %s, some(result) == %s)' % (SPECE, IN('SESS'), IN('DBC'), VAL('DBC')),
+                 'implies(name in %s and not %s and not %s and %s, some(result) == %s)' % (SPECE, IN('SESS'), IN('DBC'), IN('SYSC'), VAL('SYSC')),
+                 'implies(name in %s and not %s and not %s and not %s, some(result) == %s[name].default)' % (SPECE, IN('SESS'), IN('DBC'), IN('SYSC'), SPECE)],
+        raises={'ConfigurationError': {}})
+
     # ---- Operation.apply and helpers
     SRC = '("system override" if scope == Scope.INSTANCE else ("database" if scope == Scope.DATABASE else ("session" if scope == Scope.SESSION else "global")))'
     w.contract(OPS, 'set_value', params={'storage': 'Map[str,SV]', 'name': 'str', 'value': 'Obj', 'source': 'str', 'scope': 'Scope'}, returns='Map[str,SV]',
